@@ -115,7 +115,7 @@ def typed_variants(rng):
         "Tags": [{"Key": "k", "Value": rng.choice(["v", "true", "5"])}]}})
     out.append({"Type": "AWS::EC2::SecurityGroupIngress", "Properties": {"GroupId": "g", "IpProtocol": "tcp", "CidrIp": cidr4(), "FromPort": port(), "ToPort": port()}})
     out.append({"Type": "AWS::EC2::SecurityGroupEgress", "Properties": {"GroupId": "g", "IpProtocol": "tcp", "CidrIpv6": cidr6(), "FromPort": port(), "ToPort": port()}})
-    out.append({"Type": "AWS::RDS::DBSecurityGroup", "Properties": {"GroupDescription": "d", "DBSecurityGroupIngress": rng.choice([[{"CIDRIP": cidr4()}, {"EC2SecurityGroupName": "n"}], {"CIDRIP": cidr4()}])}})
+    out.append({"Type": "AWS::RDS::DBSecurityGroup", "Properties": {"GroupDescription": "d", "DBSecurityGroupIngress": rng.choice([[{"CIDRIP": cidr4()}, {"EC2SecurityGroupName": "n"}], [{"CIDRIP": cidr4()}]])}})
     out.append({"Type": "AWS::RDS::DBSecurityGroupIngress", "Properties": {"DBSecurityGroupName": "n", "CIDRIP": cidr4()}})
     out.append({"Type": "AWS::KMS::Key", "Properties": {"KeyPolicy": gen.gen_policy_document(rng, with_condition=True), "EnableKeyRotation": boolish(), "Enabled": boolish(), "PendingWindowInDays": rng.choice([7, "7"])}})
     out.append({"Type": "AWS::S3::Bucket", "Properties": {"BucketName": "b", "AccessControl": "Private", "PublicAccessBlockConfiguration": {"BlockPublicAcls": boolish(), "BlockPublicPolicy": boolish()},
